@@ -192,7 +192,8 @@ def run_session(cfg, csv_path, symbols, data_source=None, probe_signals=False, h
     sig_universe = build_universe(q, cfg['signal_universe']) if cfg.get('signal_universe') else universe
     if acfg['kind'] in ('topn', 'sma', 'invvol') or cfg.get('signals'):
         for name, lbs in (cfg.get('signals') or {}).items():
-            cls = {'momentum': q.MomentumSignal, 'sma': q.SMASignal, 'vol': q.VolatilitySignal}[name]
+            # ('momentum_b': a second, separate momentum signal configured like the first - a risk-side copy, say)
+            cls = {'momentum': q.MomentumSignal, 'momentum_b': q.MomentumSignal, 'sma': q.SMASignal, 'vol': q.VolatilitySignal}[name]
             # (a signal may be declared with a later start of its own: it is fed from the session's first close all the same)
             # (the lookback list is the configuration's own list object, as when settings are defined once and reused)
             sig[name] = cls(cal.ts6(cfg['signal_start']) if cfg.get('signal_start') else start, sig_universe, lbs)
